@@ -9,6 +9,8 @@
 (* the canonical cover.                                                        *)
 EXTENDS GGM, TLC, Json, IOUtils
 
+CONSTANT CheckState   \* TRUE: also judge the logged key material (C11); FALSE: call results only (C10)
+
 Recs == ndJsonDeserialize(IOEnv.TRACE)
 
 VARIABLE l        \* index of the next event to consume
@@ -44,9 +46,9 @@ TPuncture ==
         /\ prefixes' = pr.pf
         /\ punctured' = pr.pu
         /\ LET P == {Val(pr.pu[i]) : i \in 1..Len(pr.pu)}
-           IN /\ ImplPunct(r) = P
-              /\ ImplCoverOK(r, P)
-              /\ ImplForwardSecure(r, P)
+           IN CheckState => /\ ImplPunct(r) = P
+                            /\ ImplCoverOK(r, P)
+                            /\ ImplForwardSecure(r, P)
 
 TEval ==
   /\ IsEv("Eval")
@@ -61,8 +63,7 @@ TBadLen ==
   /\ LET r == Recs[l]
          P == PuncturedSet
      IN /\ r.ok = 0
-        /\ ImplPunct(r) = P
-        /\ ImplCoverOK(r, P)
+        /\ CheckState => (ImplPunct(r) = P /\ ImplCoverOK(r, P))
   /\ UNCHANGED <<prefixes, punctured>>
 
 TraceNext == TReset \/ TPuncture \/ TEval \/ TBadLen
